@@ -65,22 +65,25 @@ func HarnessC19_Stack() {
 	vfSetNow(now)
 	mock := NewMockCache()
 	spy := &vfSpy{Cache: mock, now: &now, lastHit: map[string]int64{}}
-	var c Cache = spy
 	logger := log.NewNopLogger()
 	order := vfChoice("stack", vfParam("stacks", 3))
 	// wrappers from the backend upwards
 	perms := [][]byte{{'S', 'V', 'L'}, {'S', 'L', 'V'}, {'L', 'V', 'S'}, {'V', 'S', 'L'}, {'L', 'S', 'V'}, {'V', 'L', 'S'}}
-	for _, w := range perms[order] {
-		switch w {
-		case 'S':
-			c = NewSnappy(c, logger)
-		case 'V':
-			c = NewVersioned(c, 1, logger)
-		case 'L':
-			l, err := WrapWithLRUCache(c, "t", nil, lruSize, time.Duration(defTTL)*time.Second, logger)
-			vfAssert(err == nil, "C19 LRU wrapper is created")
-			c = l
+	mkStack := func() Cache {
+		var c Cache = spy
+		for _, w := range perms[order] {
+			switch w {
+			case 'S':
+				c = NewSnappy(c, logger)
+			case 'V':
+				c = NewVersioned(c, 1, logger)
+			case 'L':
+				l, err := WrapWithLRUCache(c, "t", nil, lruSize, time.Duration(defTTL)*time.Second, logger)
+				vfAssert(err == nil, "C19 LRU wrapper is created")
+				c = l
+			}
 		}
+		return c
 	}
 	ctx := context.Background()
 	model := map[string]*vfModelEntry{"k1": {}, "k2": {}}
@@ -88,6 +91,17 @@ func HarnessC19_Stack() {
 		model[k] = &vfModelEntry{has: true, val: v, storeT: now, ttl: ttl}
 		// a new value invalidates what the in-memory layer may have loaded before
 		delete(spy.lastHit, "1@"+k)
+	}
+	c := mkStack()
+	// optionally the shared backend already holds both keys (stored through an
+	// earlier incarnation of the same stack) while the in-memory layer of the
+	// stack under test starts empty: a process restart
+	if pf := vfParam("prefill", 0); pf == 2 || (pf == 1 && vfChoice("prefill", 2) == 1) {
+		v1, v2, ttl := vfChoice("val", nvals), vfChoice("val", nvals), vfSecs("ttl")
+		c.SetMultiAsync(map[string][]byte{"k1": vfValues[v1], "k2": vfValues[v2]}, time.Duration(ttl)*time.Second)
+		store("k1", v1, ttl)
+		store("k2", v2, ttl)
+		c = mkStack()
 	}
 	for i := 0; i < nops; i++ {
 		switch vfChoice("op", 7) {
